@@ -259,6 +259,7 @@ def reentrancy(chk):
     vals = [0, 1, 127, 128, 300, 16384, 2 ** 21 - 1, 2 ** 28, 2 ** 31 - 1, 2 ** 32 - 1]
     enc = [('VarInt', VarInt.send, v, leb128(v)) for v in vals] + [('VarLong', VarLong.send, v, leb128(v)) for v in vals + [2 ** 35, 2 ** 56, 2 ** 63 - 1, 2 ** 64 - 1]]
     reent.after_failure(chk, 'reentrancy', enc)
+    reent.after_read_failure(chk, 'reentrancy', [(n, (VarInt if n == 'VarInt' else VarLong).read, e, (v, len(e))) for n, _f, v, e in enc])
 
     def mk_send(cls, v):
         def call():
